@@ -259,6 +259,9 @@ type serializedMTAccumulator struct {
 func (a *Accumulator) Flush() error {
 	roots := make([][]byte, len(a.roots))
 	for i, r := range a.roots {
+		if r == nil {
+			continue
+		}
 		if err := r.Flush(); err != nil {
 			return err
 		}
